@@ -15,6 +15,7 @@ import (
 	"sort"
 	"strings"
 	"testing"
+	"time"
 
 	"github.com/TheCacophonyProject/thermal-recorder/headers"
 )
@@ -121,6 +122,13 @@ func genStream(rng *vRNG, cam pCamera, edge int, o streamOpts) []*pFrame {
 		if edge > 0 && !f.MarkerLike && rng.Chance(20) {
 			f.Pix[0][rng.Intn(cam.ResX)] = 0
 			f.Pix[cam.ResY-1][rng.Intn(cam.ResX)] = 0
+		}
+		if edge > 3 && !f.MarkerLike && rng.Chance(50) {
+			// ... anywhere in a wide border, up to its innermost row and column
+			f.Pix[edge-1][rng.Intn(cam.ResX)] = 0
+			f.Pix[rng.Intn(cam.ResY)][cam.ResX-edge] = 0
+			f.Pix[rng.Range(0, edge-1)][rng.Range(0, cam.ResX-1)] = 0
+			f.WideBorderZero = true
 		}
 		if o.BadPct > 0 && rng.Intn(100) < o.BadPct {
 			f.Pix[edge+rng.Intn(cam.ResY-2*edge)][edge+rng.Intn(cam.ResX-2*edge)] = 0
@@ -242,6 +250,11 @@ func TestVerif_C14Pipe(t *testing.T) {
 		cfg.MinSecs = rng.Range(0, 1)
 		cfg.PreviewSecs = rng.Range(0, 1)
 		edge := rng.Range(0, 2)
+		if idx%20 == 7 {
+			// a Boson-sized camera with a wide border (legal there: 2*edge-pixels < 256)
+			cam = bosonCamera(320, 256, rng.Range(1, 9))
+			edge = rng.PickInt(60, 100, 127)
+		}
 		cfg.Motion = simpleMotion(rng.Range(1, 2), edge)
 		fileLen := cfg.MaxSecs*cam.FPS + 1
 		nf := fileLen * rng.Range(2, 30/fileLen+3)
@@ -252,6 +265,18 @@ func TestVerif_C14Pipe(t *testing.T) {
 		if idx%3 == 2 {
 			// rejected frames must not cost frame alignment either
 			o.BadPct = rng.PickInt(2, 5, 10)
+		}
+		// two connections per run stall for longer than any plausible read timeout in the middle of
+		// the first bytes of a frame (idx 11) or of a 'clear' marker (idx 31): a slow sender must not
+		// cost alignment
+		stall := idx == 11 || idx == 31
+		if stall {
+			cam = leptonCamera("lepton3", 16, 12, 9)
+			fileLen = cfg.MaxSecs*cam.FPS + 1
+			o.Frames, o.BadPct = fileLen*3, 0
+			if idx == 31 {
+				o.Clears, o.ClearLast = 3, true
+			}
 		}
 		frames := genStream(rng, cam, edge, o)
 		cw := &chunkWriter{rng: rng, mode: rng.PickInt(0, 0, 0, 1, 2)}
@@ -289,7 +314,37 @@ func TestVerif_C14Pipe(t *testing.T) {
 			// restart detection and cost no frame alignment
 			sabotage := idx%5 == 4 && cam.Model != "boson"
 			inFrame, sabotaged := false, 0
-			r.serve(feedStream(cam, hdr, frames, cw), func(name string) {
+			feed := feedStream(cam, hdr, frames, cw)
+			if stall {
+				feed = func(w io.Writer) error {
+					if _, err := w.Write(hdr); err != nil {
+						return err
+					}
+					stalled := false
+					for i, f := range frames {
+						raw := []byte("clear")
+						if !f.Clear {
+							raw = f.raw(cam)
+						}
+						if !stalled && i >= len(frames)/2 && f.Clear == (idx == 31) {
+							k := 1 + int(idx)%4
+							if _, err := w.Write(raw[:k]); err != nil {
+								return err
+							}
+							time.Sleep(5600 * time.Millisecond)
+							raw = raw[k:]
+							stalled = true
+							c.Count("connections_stalled_inside_a_prefix", 1)
+						}
+						if _, err := w.Write(raw); err != nil {
+							return err
+						}
+						cw.cuts++
+					}
+					return nil
+				}
+			}
+			r.serve(feed, func(name string) {
 				switch name {
 				case "conn.frame.received":
 					inFrame = true
@@ -427,6 +482,9 @@ func TestVerif_C14Pipe(t *testing.T) {
 			for _, f := range frames {
 				if f.MarkerLike {
 					c.Count("frames_starting_like_the_marker", 1)
+				}
+				if f.WideBorderZero {
+					c.Count("valid_frames_with_zeros_deep_in_a_wide_border", 1)
 				}
 			}
 			c.Count("motion_files", int64(len(mfiles)))
